@@ -13,6 +13,7 @@ import (
 	"sort"
 	"strconv"
 	"strings"
+	"time"
 
 	"golang.org/x/crypto/sha3"
 	protov2 "google.golang.org/protobuf/proto"
@@ -98,7 +99,7 @@ func (s *appState) branch(d *driver, stack porttypes.IBCModule, pkt channeltypes
 				d.lastPanic = fmt.Sprintf("%v\n%s", r, debug.Stack())
 			}
 		}()
-		ack := stack.OnRecvPacket(cacheCtx, pkt, sdk.AccAddress([]byte("relayer-account-0001")))
+		ack := stack.OnRecvPacket(cacheCtx, pkt, s.relayerAddr())
 		cls, _, bz := classifyAck(ack)
 		o.ack, o.ackBz = cls, bz
 	}()
@@ -480,6 +481,41 @@ func (s *appState) envOp(d *driver, f []string) (out string) {
 		p := a.TransferKeeper.GetParams(ctx)
 		p.ReceiveEnabled = f[1] == "1"
 		a.TransferKeeper.SetParams(ctx, p)
+		return "ok"
+	case "meta":
+		// meta <relayerHex|-> <sequence|-> <timeoutHeight|-> <timeoutStamp|-> <blockHeight|-> <blockUnixTime|->
+		if len(f) < 7 {
+			return "bad-op"
+		}
+		num := func(x string) (uint64, bool) {
+			if x == "-" {
+				return 0, false
+			}
+			n, err := strconv.ParseUint(x, 10, 64)
+			return n, err == nil
+		}
+		if f[1] != "-" {
+			b, err := hex.DecodeString(f[1])
+			if err != nil {
+				return "bad-op"
+			}
+			s.relayer = sdk.AccAddress(b)
+		}
+		if n, ok := num(f[2]); ok {
+			s.seq = n
+		}
+		if n, ok := num(f[3]); ok {
+			s.timeoutHeight = n
+		}
+		if n, ok := num(f[4]); ok {
+			s.timeoutStamp = n
+		}
+		if n, ok := num(f[5]); ok {
+			s.env.Ctx = s.env.Ctx.WithBlockHeight(int64(n & 0x7fffffffffffffff))
+		}
+		if n, ok := num(f[6]); ok {
+			s.env.Ctx = s.env.Ctx.WithBlockTime(time.Unix(int64(n&0x3fffffffff), 0).UTC())
+		}
 		return "ok"
 	case "role":
 		// role <module.role> <hex(address string)>: appoint the holder of a role of another module
